@@ -141,17 +141,16 @@ Lemma components_f0 tc : tc <= q ->
 Proof.
   intros Hle. unfold components_for. cbn [sh_cross f0_shape sh_combs sh_inds].
   assert (H : rmap (fun pi : nat =>
-                      let pi0 := Z.of_nat pi in
                       src_shapes <-- (if full_round en (Z.of_nat tc) then ROk (map (fun _ : asg => 1%Z) inst)
-                                      else perm <-- jth_permutation_indices (en_base en) (q_instances (en_base en)) (Z.of_nat tc) pi0 [] ;;;
+                                      else perm <-- jth_permutation_indices (en_base en) (q_instances (en_base en)) (Z.of_nat tc) (Z.of_nat pi) [] ;;;
                                            rmap (zindex (map (fun _ : asg => 1%Z) inst)) perm) ;;;
-                      ROk (flat_map (fun src => map (fun ind => (pi0, src, ind)) (ranges_product (f0_inds fb (Z.of_nat tc))))
+                      ROk (flat_map (fun src => map (fun ind => (Z.of_nat pi, src, ind)) (ranges_product (f0_inds fb (Z.of_nat tc))))
                                     (ranges_product src_shapes)))
                    (seq 0 (Z.to_nat (f0_perms fb tc))) =
               ROk (map (fun pi => map (fun ind => (Z.of_nat pi, zeros (if tc =? q then q else tc), ind))
                                       (ranges_product (f0_inds fb (Z.of_nat tc))))
                        (seq 0 (Z.to_nat (f0_perms fb tc))))).
-  { apply rmap_ok_map. intros pi Hpi. apply in_seq in Hpi. cbv zeta.
+  { apply rmap_ok_map. intros pi Hpi. apply in_seq in Hpi.
     rewrite (full_round_f0 fb HF Hq). destruct (tc =? q) eqn:E.
     - cbn [rbind]. rewrite ranges_product_ones. rewrite (f0_instances_length fb HF). cbn [flat_map]. rewrite app_nil_r. reflexivity.
     - unfold jth_permutation_indices, q_instances. cbn [en_base f0_enum eb_m eb_unweighted eb_instances f0_base Z.eqb Pos.eqb andb].
@@ -211,6 +210,89 @@ Proof.
   rewrite (flat_map_length_const _ (length (ranges_product (f0_inds fb (Z.of_nat tc))))).
   - rewrite seq_length, Nat2Z.inj_mul, Z2Nat.id by (apply f0_perms_nonneg; exact Hle). reflexivity.
   - intros pi _. apply map_length.
+Qed.
+
+
+(** * All keys *)
+Definition f0_lefts : list (option comp) := if lo =? 0 then [None] else map Some (f0_comps lo).
+Definition f0_keys : list key :=
+  flat_map (fun rs => map (fun l => {| k_pre := 0%Z; k_rounds := rs; k_left := l |}) f0_lefts)
+           (words (f0_rounds fb) (f0_comps q)).
+
+Lemma f0_rounds_per_run : rounds_per_run fb en = Z.of_nat (f0_rounds fb).
+Proof.
+  unfold rounds_per_run, trials_Z. cbn [en_base f0_enum eb_preamble eb_csize f0_base].
+  rewrite Z.sub_0_r. unfold f0_rounds. rewrite Nat2Z.inj_div. reflexivity.
+Qed.
+
+Lemma all_keys_f0 : all_keys fb en = ROk f0_keys.
+Proof.
+  unfold all_keys. cbn [en_base en_shape en_memo f0_enum eb_csize f0_base].
+  rewrite (components_f0 q (le_n _)). cbn [rbind]. cbn [en_leftover en_lshape en_lmemo f0_enum].
+  rewrite f0_rounds_per_run, Nat2Z.id. cbn [en_pcount f0_enum Z.to_nat].
+  change (Pos.to_nat 1) with 1. cbn [seq flat_map Z.of_nat].
+  unfold f0_keys, f0_lefts.
+  destruct (lo =? 0) eqn:E.
+  - apply Nat.eqb_eq in E. rewrite E. cbn [Z.of_nat Z.eqb rbind]. rewrite app_nil_r. reflexivity.
+  - apply Nat.eqb_neq in E. replace (Z.of_nat lo =? 0)%Z with false by (symmetry; apply Z.eqb_neq; lia).
+    rewrite (components_f0 lo (Nat.lt_le_incl _ _ (f0_leftover_lt fb HF Hq))). cbn [rbind]. rewrite app_nil_r. reflexivity.
+Qed.
+
+Lemma f0_keys_In k : In k f0_keys <-> key_ok fb k.
+Proof.
+  unfold f0_keys, key_ok. rewrite in_flat_map. split.
+  - intros [rs [Hrs Hin]]. apply in_map_iff in Hin. destruct Hin as [l [E Hl]]. subst k. cbn [k_pre k_rounds k_left].
+    apply words_In in Hrs. destruct Hrs as [Hlen Hall]. split; [reflexivity|]. split; [exact Hlen|]. split.
+    + apply Forall_forall. intros cp Hcp. rewrite Forall_forall in Hall. apply (f0_comps_In q cp (le_n _)). apply Hall. exact Hcp.
+    + unfold f0_lefts in Hl. destruct (lo =? 0) eqn:E.
+      * destruct Hl as [Hl | []]. subst l. apply Nat.eqb_eq. exact E.
+      * apply in_map_iff in Hl. destruct Hl as [cp [E2 Hcp]]. subst l. apply Nat.eqb_neq in E. split; [exact E|].
+        apply (f0_comps_In lo cp (Nat.lt_le_incl _ _ (f0_leftover_lt fb HF Hq))). exact Hcp.
+  - intros (Hpre & Hlen & Hrounds & Hleft). exists (k_rounds k). split.
+    + apply words_In. split; [exact Hlen|]. apply Forall_forall. intros cp Hcp. rewrite Forall_forall in Hrounds.
+      apply (f0_comps_In q cp (le_n _)). apply Hrounds. exact Hcp.
+    + apply in_map_iff. exists (k_left k). split; [destruct k; cbn in *; subst; reflexivity|].
+      unfold f0_lefts. destruct (k_left k) as [cp|].
+      * destruct Hleft as [Hne Hok]. replace (lo =? 0) with false by (symmetry; apply Nat.eqb_neq; exact Hne).
+        apply in_map. apply (f0_comps_In lo cp (Nat.lt_le_incl _ _ (f0_leftover_lt fb HF Hq))). exact Hok.
+      * rewrite Hleft. cbn. left. reflexivity.
+Qed.
+
+Lemma f0_lefts_NoDup : NoDup f0_lefts.
+Proof.
+  unfold f0_lefts. destruct (lo =? 0); [constructor; [intros [] | constructor]|].
+  apply FinFun.Injective_map_NoDup; [intros a b E; inversion E; reflexivity | apply f0_comps_NoDup].
+Qed.
+
+Lemma f0_keys_NoDup : NoDup f0_keys.
+Proof.
+  unfold f0_keys.
+  assert (G : forall W : list (list comp), NoDup W ->
+              NoDup (flat_map (fun rs => map (fun l => {| k_pre := 0%Z; k_rounds := rs; k_left := l |}) f0_lefts) W)).
+  { induction 1 as [|rs W Hrs Hnd IH]; cbn [flat_map]; [constructor|].
+    apply NoDup_app_intro; [|exact IH|].
+    - apply FinFun.Injective_map_NoDup; [intros a b E; inversion E; reflexivity | apply f0_lefts_NoDup].
+    - intros k Hk Hin. apply in_map_iff in Hk. destruct Hk as [l [E _]]. subst k.
+      apply in_flat_map in Hin. destruct Hin as [rs' [Hrs' Hin]]. apply in_map_iff in Hin.
+      destruct Hin as [l' [E _]]. inversion E; subst. contradiction. }
+  apply G. apply words_NoDup. apply f0_comps_NoDup.
+Qed.
+
+Lemma f0_keys_length : Z.of_nat (length f0_keys) = possible_keys fb en.
+Proof.
+  unfold possible_keys. rewrite f0_rounds_per_run. cbn [en_pcount en_count en_lcount f0_enum].
+  unfold f0_keys. rewrite (flat_map_length_const _ (length f0_lefts)) by (intros rs _; apply map_length).
+  rewrite words_length, Nat2Z.inj_mul, Nat2Z.inj_pow. rewrite (f0_comps_length q (le_n _)).
+  rewrite Z.mul_1_l. f_equal. unfold f0_lefts. destruct (lo =? 0); [reflexivity|].
+  rewrite map_length. apply f0_comps_length. apply Nat.lt_le_incl. apply (f0_leftover_lt fb HF Hq).
+Qed.
+
+(** the keys [RandomGen.__sample] draws from *)
+Lemma sample_keys_f0 : sample_keys fb = ROk (if fl_errors_fail fb || (en_count en =? 0)%Z then [] else f0_keys).
+Proof.
+  unfold sample_keys. destruct (fl_errors_fail fb); [reflexivity|].
+  rewrite (f0_make_enumerator fb HF Hq). cbn [rbind orb].
+  destruct (en_count en =? 0)%Z; [reflexivity|]. apply all_keys_f0.
 Qed.
 
 End F0K.
